@@ -89,7 +89,7 @@ func c17R1one(c *Ctx, m *runnerModel, f *Func, x *expander, e *entFn, dispatch *
 	}
 	nameS, argsS := x.str(dispatch.Args[0]), x.str(dispatch.Args[1])
 	// values slice: the local appended to in the argument loop
-	okName := strings.HasSuffix(nameS, "[0].String") && strings.HasPrefix(nameS, "$")
+	okName := strings.HasSuffix(nameS, "[0].String")
 	valuesVar := ""
 	if okName {
 		valuesVar = strings.TrimSuffix(nameS, "[0].String")
@@ -99,7 +99,19 @@ func c17R1one(c *Ctx, m *runnerModel, f *Func, x *expander, e *entFn, dispatch *
 	// the list handed over is the one evaluated in this activation: a local that is made empty and only appended to
 	if okArgs {
 		var vobj types.Object
-		if se, ok := unparen(dispatch.Args[1]).(*ast.SliceExpr); ok {
+		argX := unparen(dispatch.Args[1])
+		for i := 0; i < 4; i++ {
+			id := identOf(argX)
+			if id == nil {
+				break
+			}
+			if rhs, idx, _, ok := x.def(info.Uses[id]); ok && rhs != nil && idx < 0 {
+				argX = unparen(rhs)
+				continue
+			}
+			break
+		}
+		if se, ok := argX.(*ast.SliceExpr); ok {
 			if id := identOf(se.X); id != nil {
 				vobj = info.Uses[id]
 			}
